@@ -844,10 +844,10 @@ class GAM(Core, MetaTermMixin):
             Y, modelmat, inner=None, BW=WB.T, B=B, weights=weights, U1=U1
         )
         if diff < self.tol:
-            return
+            return True
 
         print('did not converge')
-        return
+        return False
 
     def _on_loop_start(self, variables):
         """
@@ -935,16 +935,23 @@ class GAM(Core, MetaTermMixin):
         self.statistics_['n_samples'] = len(y)
         self.statistics_['m_features'] = X.shape[1]
 
-        # optimize
-        warm_start = self._is_fitted
+        # optimize.
+        # the outcome of fit must not depend on coefficients left over from a previous fit:
+        # only an explicitly requested warm start (gridsearch) begins from self.coef_,
+        # and if that fails or does not converge the fit is redone from a cold start
+        warm_start = self._is_fitted and getattr(self, '_warm_start', False)
+        self._warm_start = False
+        if self._is_fitted and not warm_start:
+            del self.coef_
         try:
-            self._pirls(X, y, weights)
+            converged = self._pirls(X, y, weights)
         except ValueError:
             if not warm_start:
                 raise
-            # coefficients left over from a previous fit (or handed over by gridsearch) were a
-            # bad starting point for these data: the outcome of fit must not depend on them
-            del self.coef_
+            converged = False
+        if warm_start and not converged:
+            if self._is_fitted:
+                del self.coef_
             self._pirls(X, y, weights)
         # if self._opt == 0:
         #     self._pirls(X, y, weights)
@@ -2122,6 +2129,7 @@ class GAM(Core, MetaTermMixin):
                 if models:
                     coef = models[-1].coef_
                     gam.set_params(coef_=coef, force=True, verbose=False)
+                    gam._warm_start = True
                 gam.fit(X, y, weights=weights)
 
             except ValueError as error:
